@@ -1353,6 +1353,121 @@ def covered_ns(a, msg):
     return None
 
 
+# ---- wildcards, mixed content, recursion: schema templates with generated documents
+def _canon(e):
+    return (e.tag, sorted(e.attrib.items()), e.text or "", [_canon(c) for c in e], e.tail or "")
+
+
+def oracle_misc(a):
+    """xs:any / xs:anyAttribute with every namespace constraint and processContents, mixed="true", recursive and
+    nested anonymous types: every schema-valid document parses under strict settings and comes back with the
+    same infoset (prefixes aside)"""
+    from lxml import etree
+    from xsdata.formats.dataclass.context import XmlContext
+    from xsdata.formats.dataclass.parsers import XmlParser
+    from xsdata.formats.dataclass.parsers.config import ParserConfig
+    from xsdata.formats.dataclass.serializers import XmlSerializer
+
+    xsd = a["xsd"]
+    try:
+        schema = etree.XMLSchema(etree.fromstring(xsd.encode()))
+    except etree.XMLSchemaParseError:
+        return None
+    g = CG.run_pipeline({"s.xsd": xsd}, **a.get("config", {}))
+    try:
+        if g.error is not None:
+            return f"generation failed: {type(g.error).__name__}: {g.error}"
+        R = g.classes()["R"]
+        ctx = XmlContext()
+        parser = XmlParser(context=ctx, config=ParserConfig(fail_on_unknown_properties=True, fail_on_unknown_attributes=True, fail_on_converter_warnings=True))
+        for doc in a["docs"]:
+            src = etree.fromstring(doc.encode())
+            if not schema.validate(src):
+                continue
+            try:
+                obj = parser.from_string(doc, R)
+            except Exception as e:  # noqa: BLE001
+                return f"schema-valid document {doc} rejected: {type(e).__name__}: {e}"
+            out = XmlSerializer(context=ctx).render(obj)
+            back = etree.fromstring(out.encode())
+            if _canon(back) != _canon(src):
+                return f"document {doc} re-serialised with another infoset: {out}"
+            if not schema.validate(back):
+                return f"document {doc} re-serialised as {out}, which is not schema-valid"
+    finally:
+        g.close()
+    return None
+
+
+def _schema(body, extra=""):
+    return ('<?xml version="1.0"?>\n<xs:schema xmlns:xs="http://www.w3.org/2001/XMLSchema" targetNamespace="urn:t" xmlns="urn:t" elementFormDefault="qualified">\n'
+            f'{extra} <xs:element name="r">{body}</xs:element>\n <xs:element name="g" type="xs:string"/>\n</xs:schema>\n')
+
+
+def gen_misc(rng, tier):
+    NSD = 'xmlns:t="urn:t" xmlns:o="urn:o" xmlns:p="urn:p"'
+    n = 0
+    while n < n_cases(tier, 60, 100000):
+        n += 1
+        kind = rng.choice(["any", "any", "anyattr", "mixed", "recursive", "nested"])
+        cfg = {"compound_fields": True} if rng.random() < 0.25 else {}
+        if kind == "any":
+            ns = rng.choice(["##any", "##other", "##local", "##targetNamespace", "urn:o urn:p", "urn:o", "##targetNamespace ##local"])
+            pc = rng.choice(["lax", "skip", "strict"])
+            mn, mx = rng.choice([(0, "unbounded"), (1, 1), (0, 1), (1, "unbounded")])
+            before = rng.random() < 0.7
+            body = ('<xs:complexType><xs:sequence>' + ('<xs:element name="a" type="xs:string"/>' if before else "")
+                    + f'<xs:any namespace="{ns}" processContents="{pc}" minOccurs="{mn}" maxOccurs="{mx}"/></xs:sequence></xs:complexType>')
+            pool = ['<o:x>1</o:x>', '<o:y k="2">t<o:z/>u</o:y>', '<loc>1</loc>', '<t:g>q</t:g>', '<p:x/>', '<p:w><p:v>deep</p:v>tail</p:w>']
+            docs = []
+            for _ in range(5):
+                kids = [rng.choice(pool) for _ in range(rng.randint(0, 3))]
+                docs.append(f'<t:r {NSD}>' + ("<t:a>v</t:a>" if before else "") + "".join(kids) + "</t:r>")
+            yield {"xsd": _schema(body), "docs": docs, "config": cfg, "kind": f"any/{ns}/{pc}"}
+        elif kind == "anyattr":
+            ns = rng.choice(["##any", "##other", "##local", "urn:o"])
+            body = f'<xs:complexType><xs:sequence><xs:element name="a" type="xs:string"/></xs:sequence><xs:attribute name="k" type="xs:string"/><xs:anyAttribute namespace="{ns}" processContents="lax"/></xs:complexType>'
+            pool = ['k="1"', 'o:m="2"', 'o:n="3"', 'm="4"', 'p:q="5"']
+            docs = [f'<t:r {NSD} ' + " ".join(rng.sample(pool, rng.randint(0, 3))) + "><t:a>v</t:a></t:r>" for _ in range(5)]
+            yield {"xsd": _schema(body), "docs": docs, "config": cfg, "kind": f"anyattr/{ns}"}
+        elif kind == "mixed":
+            body = '<xs:complexType mixed="true"><xs:sequence><xs:element name="a" type="xs:string" minOccurs="0" maxOccurs="unbounded"/><xs:element name="b" type="xs:int" minOccurs="0"/></xs:sequence></xs:complexType>'
+            docs = []
+            for _ in range(5):
+                parts = [rng.choice(["x", "y z", ""])]
+                for _ in range(rng.randint(0, 3)):
+                    parts += ["<t:a>v</t:a>", rng.choice(["t", "", "u v"])]
+                if rng.random() < 0.5:
+                    parts += ["<t:b>3</t:b>", rng.choice(["w", ""])]
+                docs.append(f'<t:r {NSD}>' + "".join(parts) + "</t:r>")
+            yield {"xsd": _schema(body), "docs": docs, "config": cfg, "kind": "mixed"}
+        elif kind == "recursive":
+            extra = ' <xs:complexType name="T"><xs:sequence><xs:element name="v" type="xs:string"/><xs:element name="c" type="T" minOccurs="0" maxOccurs="unbounded"/></xs:sequence><xs:attribute name="id" type="xs:string"/></xs:complexType>\n'
+            xsd = _schema("", extra).replace('<xs:element name="r"></xs:element>', '<xs:element name="r" type="T"/>')
+
+            def node(tag, depth):
+                kids = "".join(node("t:c", depth + 1) for _ in range(rng.randint(0, 2 if depth < 3 else 0)))
+                ida = f' id="i{depth}"' if rng.random() < 0.5 else ""
+                return f"<{tag}{ida}><t:v>v{depth}</t:v>{kids}</{tag}>"
+
+            docs = [node("t:r", 0).replace("<t:r", f"<t:r {NSD}", 1) for _ in range(5)]
+            yield {"xsd": xsd, "docs": docs, "config": cfg, "kind": "recursive"}
+        else:
+            body = ('<xs:complexType><xs:sequence><xs:element name="a" maxOccurs="unbounded"><xs:complexType><xs:sequence>'
+                    '<xs:element name="b" minOccurs="0"><xs:complexType><xs:simpleContent><xs:extension base="xs:int"><xs:attribute name="u" type="xs:string"/></xs:extension></xs:simpleContent></xs:complexType></xs:element>'
+                    '<xs:element name="a" type="xs:string" minOccurs="0"/></xs:sequence><xs:attribute name="k" type="xs:boolean"/></xs:complexType></xs:element></xs:sequence></xs:complexType>')
+            docs = []
+            for _ in range(5):
+                items = []
+                for _ in range(rng.randint(1, 3)):
+                    b = rng.choice(["", '<t:b u="m">7</t:b>', "<t:b>-1</t:b>"])
+                    inner = rng.choice(["", "<t:a>in</t:a>"])
+                    k = rng.choice(["", ' k="true"', ' k="false"'])
+                    items.append(f"<t:a{k}>{b}{inner}</t:a>")
+                docs.append(f'<t:r {NSD}>' + "".join(items) + "</t:r>")
+            yield {"xsd": _schema(body), "docs": docs, "config": cfg, "kind": "nested"}
+
+
 def covered_groups(a, msg):
     return None  # element names are distinct inside the group: the duplicate-site finding cannot apply
 
@@ -1387,6 +1502,7 @@ ORACLES = [
     Oracle("c02.derived_docs", gen_derived, oracle_derived),
     Oracle("c02.subst_docs", gen_subst_docs, oracle_docs, covered=covered_subst),
     Oracle("c02.ns_docs", gen_ns_docs, oracle_ns_docs, covered=covered_ns),
+    Oracle("c02.misc_docs", gen_misc, oracle_misc),
 ]
 
 
